@@ -80,7 +80,13 @@ pub fn restore<P1: AsRef<Path>, P2: AsRef<Path>>(
         });
     }
 
+    #[cfg(feature = "verif")]
+    crate::verif::point("restore.step", "opened");
+
     let mut dst_locked = lock_all(&mut dst_db_file, dst.as_ref(), timeout)?;
+
+    #[cfg(feature = "verif")]
+    crate::verif::point("restore.step", "locked");
 
     let dst_journal_path = format!("{}-journal", dst.as_ref().display());
     info!("removing the journal file at: '{dst_journal_path}'");
@@ -89,6 +95,9 @@ pub fn restore<P1: AsRef<Path>, P2: AsRef<Path>>(
     {
         return Err(e.into());
     }
+
+    #[cfg(feature = "verif")]
+    crate::verif::point("restore.step", "journal_removed");
 
     if dst_locked.is_wal() {
         let dst_wal_path = format!("{}-wal", dst.as_ref().display());
@@ -103,6 +112,9 @@ pub fn restore<P1: AsRef<Path>, P2: AsRef<Path>>(
     dst_db_file.seek(std::io::SeekFrom::Start(0))?;
     src_db_file.seek(std::io::SeekFrom::Start(0))?;
 
+    #[cfg(feature = "verif")]
+    crate::verif::point("restore.step", "before_copy");
+
     info!(
         "copying from source to destination: {}",
         src.as_ref().display()
@@ -110,9 +122,15 @@ pub fn restore<P1: AsRef<Path>, P2: AsRef<Path>>(
 
     copy_check(&mut src_db_file, &mut dst_db_file, src_meta.len())?;
 
+    #[cfg(feature = "verif")]
+    crate::verif::point("restore.step", "copied");
+
     if let Locked::Wal(ref mut dst_shm_file) = dst_locked {
         dst_shm_file.write_at(&[0; 136], 0)?;
     }
+
+    #[cfg(feature = "verif")]
+    crate::verif::point("restore.step", "shm_reset");
 
     info!("done");
 
@@ -229,6 +247,8 @@ fn lock(f: &File, l_type: LockType, l_start: i64, timeout: Duration) -> Result<(
         match fcntl(f, FcntlArg::F_SETLK(&flock)) {
             Ok(_) => {
                 info!("lock acquired");
+                #[cfg(feature = "verif")]
+                crate::verif::point("restore.step", &format!("lock:{l_type:?}:{l_start}"));
                 return Ok(());
             }
             Err(_e) => {
